@@ -273,8 +273,9 @@ func vfOtherKind(rt *rapid.T, kind string, sameCat bool) (string, bool) {
 // model of one live object
 type vfLive struct {
 	obj     vfObj
-	core    *vfCore // business controllers only: the instance that is live
-	tainted bool
+	core    *vfCore // business controllers only: the instance that received the latest Init/Inherit
+	good    *vfCore // the latest instance whose Init/Inherit completed (== core unless tainted; may be nil)
+	tainted bool    // an own Init/Inherit of this object panicked since its name appeared
 }
 
 // expectation for one name in one step, as a multiset of ops
@@ -553,6 +554,7 @@ func TestVerifC20Supervisor(t *testing.T) {
 				addWatch("vf-late", true, cats...)
 			}
 
+			updateDelivered := map[string]bool{}
 			// watcher events against the model diff
 			for _, vw := range watches {
 				evs := vfDrain(vw.w)
@@ -573,6 +575,7 @@ func TestVerifC20Supervisor(t *testing.T) {
 					}
 					for _, n := range vfSortedKeys(ev.Update) {
 						got[n] = append(got[n], "update:"+vfEntityDesc(ev.Update[n]))
+						updateDelivered[n] = true
 						vw.last[n] = ev.Update[n]
 					}
 				}
@@ -646,20 +649,30 @@ func TestVerifC20Supervisor(t *testing.T) {
 					add(n, "bc-lifecycle-mismatch", "callbacks on an unknown name %q: %v", n, byName[n])
 				}
 			}
+			// An object whose own Init/Inherit panicked ("tainted") stays in the model as live. The
+			// statement still counts its callbacks (exactly one Close when the name disappears or the
+			// kind changes, no second Init, Inherit once per spec change); open are only: which of its
+			// generations (the last one that completed, or the one whose callback panicked) is the
+			// predecessor / gets closed / is reported live, and whether an unchanged snapshot re-inherits it.
 			newModel := map[string]*vfLive{}
+			broken := map[string]bool{}
 			for _, n := range vfNames {
 				old := model[n]
 				nw, present := next[n]
-				skip := (old != nil && old.tainted) || panicked[n]
 				if present {
 					newModel[n] = &vfLive{obj: nw}
 				}
-				if skip {
-					vf.Class("name-step-exempt-because-of-own-panic")
-					if present {
-						newModel[n].tainted = true
+				lv := newModel[n]
+				tainted := old != nil && old.tainted
+				sameObject := old != nil && present && old.obj.Kind == nw.Kind
+				if sameObject {
+					lv.core, lv.good, lv.tainted = old.core, old.good, old.tainted
+				}
+				if tainted {
+					vf.Class("tainted-name-step-judged-with-narrowed-oracle")
+					if !sameObject && vfKindCat[old.obj.Kind] == CategoryBusinessController {
+						vf.Class("tainted-object-disappears-or-changes-kind")
 					}
-					continue
 				}
 				var got []string
 				for _, c := range byName[n] {
@@ -674,48 +687,65 @@ func TestVerifC20Supervisor(t *testing.T) {
 				gs, ws := append([]string{}, got...), append([]string{}, want...)
 				sort.Strings(gs)
 				sort.Strings(ws)
-				if strings.Join(gs, ",") != strings.Join(ws, ",") {
-					add(n, "bc-lifecycle-mismatch", "name %s: callbacks %v, model expects %v", n, byName[n], want)
+				okOps := strings.Join(gs, ",") == strings.Join(ws, ",")
+				if !okOps && tainted && sameObject && old.obj.Payload == nw.Payload && vfKindCat[nw.Kind] == CategoryBusinessController &&
+					len(gs) == 1 && gs[0] == "inherit:"+nw.Kind+":"+nw.Payload {
+					// unspecified: a tainted object may be re-inherited by an unchanged snapshot
+					vf.Class("ambiguous-tainted-object-reinherited-on-unchanged-spec")
+					okOps = true
+				}
+				if !okOps {
+					add(n, "bc-lifecycle-mismatch", "name %s (tainted by an earlier own panic: %v): callbacks %v, model expects %v", n, tainted, byName[n], want)
+					broken[n] = true
 					if present {
-						newModel[n].tainted = true // state unknown from here on (only reached behind a known finding)
+						lv.tainted = true
 					}
 					continue
 				}
 				// identities
+				allowed := func(c *vfCore) bool {
+					return old != nil && c != nil && (c == old.core || c == old.good)
+				}
+				oldDesc := "<none>"
+				if old != nil {
+					oldDesc = old.core.desc()
+					if old.good != old.core {
+						oldDesc += " or " + old.good.desc()
+					}
+				}
 				for _, c := range byName[n] {
 					switch c.Op {
 					case "init":
 						if c.Core.nInit != 1 || c.Core.nInh != 0 || c.Core.nClose != 0 {
 							add(n, "bc-lifecycle-mismatch", "name %s: Init on an instance that was used before: %s (init=%d inherit=%d close=%d)", n, c, c.Core.nInit, c.Core.nInh, c.Core.nClose)
 						}
-						newModel[n].core = c.Core
+						lv.core = c.Core
+						if c.Panicked {
+							lv.tainted = true
+						} else {
+							lv.good = c.Core
+						}
 					case "inherit":
 						if c.Core.nInit != 0 || c.Core.nInh != 1 || c.Core.nClose != 0 {
 							add(n, "bc-lifecycle-mismatch", "name %s: Inherit on an instance that was used before: %s", n, c)
 						}
-						if old == nil || c.Prev != old.core {
-							want := "<none>"
-							if old != nil {
-								want = old.core.desc()
-							}
-							add(n, "bc-inherit-wrong-predecessor", "name %s: %s but the live generation was %s", n, c, want)
+						if !allowed(c.Prev) {
+							add(n, "bc-inherit-wrong-predecessor", "name %s: %s but the live generation was %s", n, c, oldDesc)
 						}
-						newModel[n].core = c.Core
+						lv.core = c.Core
+						if c.Panicked {
+							lv.tainted = true
+						} else {
+							lv.good = c.Core
+						}
 					case "close":
-						if old == nil || c.Core != old.core {
-							want := "<none>"
-							if old != nil {
-								want = old.core.desc()
-							}
-							add(n, "bc-close-wrong-instance", "name %s: %s but the live instance was %s", n, c, want)
+						if !allowed(c.Core) {
+							add(n, "bc-close-wrong-instance", "name %s: %s but the live instance was %s", n, c, oldDesc)
 						}
 						if c.Core.nClose != 1 {
 							add(n, "bc-lifecycle-mismatch", "name %s: instance closed %d times: %s", n, c.Core.nClose, c)
 						}
 					}
-				}
-				if present && newModel[n].core == nil && old != nil && old.obj.Kind == nw.Kind {
-					newModel[n].core = old.core // untouched
 				}
 			}
 			// panic alongside another object changing in the same snapshot
@@ -737,8 +767,7 @@ func TestVerifC20Supervisor(t *testing.T) {
 					return true
 				})
 				for _, n := range vfNames {
-					old := model[n]
-					if (old != nil && old.tainted) || panicked[n] || (newModel[n] != nil && newModel[n].tainted) {
+					if broken[n] {
 						continue
 					}
 					lv := newModel[n]
@@ -750,10 +779,10 @@ func TestVerifC20Supervisor(t *testing.T) {
 						continue
 					}
 					if wantLive {
-						if vfCoreOfObject(ent.Instance()) != lv.core {
-							add(n, "live-set-mismatch", "name %s: live instance is %s, model says %s", n, vfCoreOfObject(ent.Instance()).desc(), lv.core.desc())
+						if got := vfCoreOfObject(ent.Instance()); got != lv.core && (got == nil || got != lv.good) {
+							add(n, "live-set-mismatch", "name %s: live instance is %s, model says %s", n, got.desc(), lv.core.desc())
 						}
-						if d := vfEntityDesc(ent); d != lv.obj.Kind+":"+lv.obj.Payload {
+						if d := vfEntityDesc(ent); !lv.tainted && d != lv.obj.Kind+":"+lv.obj.Payload {
 							add(n, "live-set-mismatch", "name %s: live spec is %s, snapshot says %s:%s", n, d, lv.obj.Kind, lv.obj.Payload)
 						}
 					}
@@ -798,6 +827,14 @@ func TestVerifC20Supervisor(t *testing.T) {
 						}
 					}
 					key = kindChange[first]
+					// the old finding's key only when the old finding's signature (an Inherit for the name) shows
+					asUpdate := updateDelivered[first]
+					for _, c := range byName[first] {
+						asUpdate = asUpdate || c.Op == "inherit"
+					}
+					if !asUpdate {
+						key = strings.Replace(key, "kind-change-delivered-as-update", "kind-change-not-close-plus-init", 1)
+					}
 				}
 				var lines []string
 				for _, d := range disc {
